@@ -16,13 +16,16 @@ def run(tier, runner):
     tm = matrix.programs(runner, [p for p in matrix.vec_points(tier, elems=['NTRtm']) if p.flavour != 'fcv'] +
                          [p for p in matrix.memalg_points('thorough', stds=[17]) if p.elem in ('NTRtm', 'NTR')])
     r_blk = ownership.block(progs + tm + real)
+    r_xa = ownership.xalloc([p for p in progs if 'flavour' not in p.meta])
+    r_xa.require(6, 'canSwapDynStorage instantiations (receiver x operand)')
+    r_sr = ownership.stale_read([p for p in progs if 'flavour' not in p.meta] + real)
     r_blk.require(3, 'functions that hold a fresh block in a local variable (Reallocate, SmallVectorBase::grow, amc::allocator reallocate)')
     r_da.require(9, 'deallocate / Reallocate call sites')
     r_fa.require(8, 'storage pointer overwrites and releasing functions')
     r_st.require(6, 'buffer hand-over functions')
     r_re.require(6, 'vector instantiations')
     return {
-        'results': [r_da, r_fa, r_st, r_re, r_w, r_blk],
+        'results': [r_da, r_fa, r_st, r_re, r_w, r_blk, r_sr, r_xa],
         'explanation': 'DEALLOC-ARG / REALLOC-ARGS: at every deallocate(p, n) the pointer is the object\'s own storage and n is a read of the same object\'s '
                        'capacity field, unmodified since; every vec::Reallocate call gets (own storage, own capacity, new capacity, own size) and the new '
                        'capacity is the value stored into the capacity field afterwards; inside Reallocate and amc::allocator\'s reallocate the parameters '
